@@ -308,9 +308,23 @@ func c10mRunCase(ci int, tr *vw.Trace, child bool) {
 	after := mmDump(B)
 	tr.Op(append([]int64{212}, after...)...)
 	tr.Obs(777, 1)
+	f7 := false
 	if !mmEq(after, snapDump) {
-		report("restore-not-replace:master", "after SnapshotRestore the master replica does not hold the snapshot's state (a field that is zero in the snapshot kept its old value)",
-			map[string]interface{}{"k": k, "j": jj, "before": vw.Ints(before), "snapshot": vw.Ints(snapDump), "after": vw.Ints(after)})
+		// the one deviation explained by gob decoding into the live struct: everything equals the snapshot except
+		// that ReadOnly, false (= not transmitted) in the snapshot, kept the replica's old value true
+		L := len(after)
+		if len(snapDump) == L && mmEq(after[:L-1], snapDump[:L-1]) && snapDump[L-1] == 0 && before[len(before)-1] == 1 && after[L-1] == 1 {
+			f7 = true
+			report("restore-keeps-old-field:master:ReadOnly", "after SnapshotRestore the master replica is still read-only although the snapshot it restored is not (a field that is zero in the snapshot kept its old value)",
+				map[string]interface{}{"k": k, "j": jj, "before": vw.Ints(before), "snapshot": vw.Ints(snapDump), "after": vw.Ints(after)})
+		} else {
+			report("restore-not-replace:master", "after SnapshotRestore the master replica does not hold the state the snapshot was taken at",
+				map[string]interface{}{"k": k, "j": jj, "before": vw.Ints(before), "snapshot_taken_at": vw.Ints(snapDump), "after": vw.Ints(after)})
+		}
+	}
+	suffix := ""
+	if f7 {
+		suffix = ":after-restore-kept-ReadOnly"
 	}
 	for p := jj + 1; p <= n; p++ {
 		res, pan := mmApply(B, cmds[p-1], idxs[p-1])
@@ -322,14 +336,14 @@ func c10mRunCase(ci int, tr *vw.Trace, child bool) {
 		tr.Op(cmds[p-1].line(idxs[p-1])...)
 		tr.Obs(append(append([]int64{}, rl...), mmDump(B)...)...)
 		if !mmEq(rl, ress[p-1]) {
-			report("result-diverge-snapshot:master", "a master replica restored from a snapshot returned a different result for the same command",
+			report("result-diverge-snapshot:master"+suffix, "a master replica restored from a snapshot returned a different result for the same command",
 				map[string]interface{}{"position": p, "straight": vw.Ints(ress[p-1]), "restored": vw.Ints(rl), "k": k, "j": jj})
 			break
 		}
 	}
 	finalB := mmDump(B)
 	if !mmEq(finalA, finalB) || ckA != B.state.checksum() {
-		report("replicas-diverge-snapshot:master", "two master replicas given the same command sequence hold different state (snapshot route vs straight application); the periodic checksum comparison would abort the process",
+		report("replicas-diverge-snapshot:master"+suffix, "two master replicas given the same command sequence hold different state (snapshot route vs straight application); the periodic checksum comparison would abort the process",
 			map[string]interface{}{"k": k, "j": jj, "straight": vw.Ints(finalA), "restored": vw.Ints(finalB), "checksum_straight": ckA, "checksum_restored": B.state.checksum()})
 	}
 	vw.Distinct(fmt.Sprintf("m/%d/%d/%d/%v", n, jj, k, finalA))
